@@ -121,6 +121,12 @@ def _argsort(ex, st, node):
     i, j = ex.bvar("i"), ex.bvar("j")
     ex.assume(st, z3.ForAll([i, j], z3.Implies(z3.And(0 <= i, i <= j, j < n), xa[ra[i]] <= xa[ra[j]]),
                             patterns=[z3.MultiPattern(ra[i], ra[j])]))
+    # the values read off along the sorting permutation are THE ascending arrangement of x (a function of x)
+    sa = ex.uf("sorted_asc_" + x.t.key(), x.t.sort(), x.t.sort())
+    kk = ex.bvar("k")
+    ex.assume(st, x.t.len(sa(x.z)) == n)
+    ex.assume(st, z3.ForAll([kk], z3.Implies(z3.And(0 <= kk, kk < n), xa[ra[kk]] == x.t.arr(sa(x.z))[kk]),
+                            patterns=[ra[kk]]))
     # argsort of a permutation of range(n) is its inverse
     inv = ex.uf("perm_inv", x.t.sort(), z3.IntSort(), z3.IntSort()) if x.t.elem == INT else None
     if inv is not None:
@@ -245,3 +251,68 @@ def _dict_get(ex, st, base, node, basenode):
 @method("iter", "readline", stmt="")
 def _readline(ex, st, base, node, basenode):
     raise Unsupported("readline")
+
+
+@libfn("np.asarray", "numpy.asarray", "np.array", stmt="np.asarray(x) / np.array(x): the same values as an array")
+def _asarray(ex, st, node):
+    a = ex.ev(st, node.args[0])
+    if isinstance(a.t, TSeq):
+        return SV(a.t.with_kind("nd"), a.z)
+    raise Unsupported("np.asarray(%s)" % a.t)
+
+
+@libfn("np.empty_like", "np.zeros_like", "np.ones_like", stmt="np.empty_like(x): an array of the same length "
+                                                              "(contents arbitrary for empty_like)")
+def _empty_like(ex, st, node):
+    a = ex.ev(st, node.args[0])
+    r = ex.fresh("empty_like", a.t)
+    ex.assume(st, a.t.len(r.z) == ex.seq_len(a))
+    return r
+
+
+_orig_store_np = LIB.store.__func__ if hasattr(LIB.store, "__func__") else None
+
+
+def _store_fancy(self, ex, st, target, val, node):
+    # a[idx] = vals with an integer index array without duplicates: a[idx[k]] == vals[k], other positions kept
+    if isinstance(target.value, ast.Name) and target.value.id in st.env:
+        base = st.env[target.value.id]
+        if isinstance(base.t, TSeq):
+            idx = ex.ev(st, target.slice)
+            if isinstance(idx.t, TSeq) and idx.t.elem == INT and isinstance(val.t, TSeq):
+                n, m = ex.seq_len(base), ex.seq_len(idx)
+                ia, va, ba = idx.t.arr(idx.z), val.t.arr(val.z), base.t.arr(base.z)
+                j, k = ex.bvar("j"), ex.bvar("k")
+                ex.oblige(st, "safety.fancy_store_len", ex.seq_len(val) == m, "safety", node,
+                          "one value per index")
+                ex.oblige(st, "safety.fancy_store_index",
+                          z3.ForAll([k], z3.Implies(z3.And(0 <= k, k < m), z3.And(0 <= ia[k], ia[k] < n)),
+                                    patterns=[ia[k]]), "safety", node, "indices in bounds")
+                ex.oblige(st, "safety.fancy_store_distinct",
+                          z3.ForAll([j, k], z3.Implies(z3.And(0 <= j, j < k, k < m), ia[j] != ia[k]),
+                                    patterns=[z3.MultiPattern(ia[j], ia[k])]), "safety", node,
+                          "index array without duplicates (otherwise the last write wins - not modelled)")
+                ex.used_lib.add("numpy fancy assignment a[p] = v with distinct indices: a[p[k]] == v[k], the other "
+                                "positions unchanged")
+                r = ex.fresh(target.value.id, base.t)
+                ra = base.t.arr(r.z)
+                hit = ex.uf("fancy_hit", idx.t.sort(), z3.IntSort(), z3.IntSort())
+                ex.assume(st, base.t.len(r.z) == n)
+                ex.assume(st, z3.ForAll([k], z3.Implies(z3.And(0 <= k, k < m), ra[ia[k]] == ex.coerce(
+                    SV(val.t.elem, va[k]), base.t.elem).z), patterns=[ia[k]]))
+                st.env[target.value.id] = r
+                return True
+    return _orig_store_np(self, ex, st, target, val, node)
+
+
+type(LIB).store = _store_fancy
+
+
+def b_sorted_asc(self, ex, st, node):
+    """spec: sorted_asc(x) = the ascending arrangement of the values of x (unique; what argsort reads off)"""
+    x = ex.ev(st, node.args[0])
+    sa = ex.uf("sorted_asc_" + x.t.key(), x.t.sort(), x.t.sort())
+    return SV(x.t, sa(x.z))
+
+
+type(LIB).b_sorted_asc = b_sorted_asc
